@@ -1,4 +1,4 @@
-use std::collections::{BTreeSet, HashMap, HashSet};
+use std::collections::{BTreeMap, BTreeSet, HashMap, HashSet};
 use std::rc::Rc;
 
 use crate::compiler::codegen::codegen;
@@ -166,7 +166,9 @@ pub fn deinline_opt(
 
     // Now collect the tree of synthetic functions rooted at any of the roots in
     // each root set.
-    let root_set_to_inline_tree: HashMap<BTreeSet<Vec<u8>>, HashSet<Vec<u8>>> = root_set_to_leaf
+    // The greedy search below keeps the first improvement it meets, so it must
+    // visit root sets and functions in an order that does not depend on hashing.
+    let root_set_to_inline_tree: BTreeMap<BTreeSet<Vec<u8>>, BTreeSet<Vec<u8>>> = root_set_to_leaf
         .iter()
         .map(|(root_set, leaves)| {
             let mut full_tree_set = HashSet::new();
@@ -178,7 +180,7 @@ pub fn deinline_opt(
             if full_tree_set.is_empty() {
                 full_tree_set = leaves.iter().cloned().collect();
             }
-            (root_set.clone(), full_tree_set)
+            (root_set.clone(), full_tree_set.into_iter().collect())
         })
         .collect();
 
